@@ -191,7 +191,8 @@ CLAIMS["C12"] = dict(
         "(C12_generated_guards_are_exact: whatever rule emit_rule emits, original or helper, in whatever state, the k-th "
         "alternative of the method is guarded iff the k-th alternative of the flattened rule body mentions such a name); "
         "C12_flag_on_equals_parser_without_guards (Proofs/ExecUnguard.v): with the flag ON, a module without *_without_invalid methods "
-        "computes exactly what the module with every guard removed computes. Tie: K-gen/K-run. On the implementation: "
+        "computes exactly what the module with every guard removed computes; C12_without_invalid_mark_inert_when_flag_off "
+        "(Proofs/ExecUnwi.v): with the flag OFF a *_without_invalid method switches nothing. Tie: K-gen/K-run. On the implementation: "
         "parser(G) with the flag off equals parser(G minus those alternatives) on enumerated inputs for 14 placements, no "
         "invalid_ rule is invoked with the flag off, and the flag is monitored at every call in both modes.",
    design="6/C12", technique="Coq proofs (flag preservation and whole-program strip equivalence by induction on fuel; detector exactness via table simulation) + strip-equivalence sweep",
@@ -272,7 +273,7 @@ CLAIMS["C01"] = dict(
         "carry their own action (bare ones are emitted with the UNREACHABLE filler). The "
         "condition is evaluated in Coq on the generator model's output for a floor of 21 action-free shapes (must hold) and for every "
         "explored grammar (coverage count in the evidence; all explored action-free random grammars are inside). Partial: "
-        "left recursion, the second pass over bare invalid_ alternatives, LOCATIONS, *_without_invalid rules, forced items over nullable or forced operands, and the completeness "
+        "left recursion, the second pass over bare invalid_ alternatives, LOCATIONS, forced items over nullable or forced operands, and the completeness "
         "direction (the parser returns whenever the semantics derives) are not theorems; for those the equality is machine-checked case "
         "by case. Known finding: lookahead over a forced item consumes.")
 CLAIMS["C19"] = dict(
